@@ -366,7 +366,9 @@ func ngapPrimitiveSweep(ctx *Ctx, prop string) {
 		}
 	}
 	// SEQUENCE OF INTEGER(0..255)
-	for _, z := range []sz{{1, 8, false}, {1, 256, false}, {0, 3, false}, {1, 1, false}, {2, 2, false}, {1, 16, true}, {1, 65535, false}, {1, 1024, false}} {
+	// (ranges that are and are not powers of two: a count field that can hold ub+1 must still be refused)
+	for _, z := range []sz{{1, 8, false}, {1, 256, false}, {0, 3, false}, {1, 1, false}, {2, 2, false}, {1, 16, true}, {1, 65535, false}, {1, 1024, false},
+		{1, 12, false}, {0, 16, false}, {0, 4, false}, {1, 5, false}, {1, 100, false}, {1, 255, false}, {3, 9, false}, {1, 2048, false}, {1, 4096, false}, {1, 16384, false}, {0, 65535, false}} {
 		tag := fmt.Sprintf("sizeLB:%d,sizeUB:%d,valueLB:0,valueUB:255", z.lb, z.ub)
 		if z.ext {
 			tag = "sizeExt," + tag
@@ -381,12 +383,14 @@ func ngapPrimitiveSweep(ctx *Ctx, prop string) {
 			}
 			add(primCase{typ: "[]#int", tag: tag, val: items, class: fmt.Sprintf("SEQUENCE-OF/size(%d..%d)", z.lb, z.ub)})
 		}
-		if z.ub < 300 && !z.ext {
-			items := &refper.Node{Kind: "list"}
-			for i := int64(0); i <= z.ub; i++ {
-				items.Kids = append(items.Kids, refper.Int(1))
+		if !z.ext {
+			for _, over := range []int64{1, 2} {
+				items := &refper.Node{Kind: "list"}
+				for i := int64(0); i < z.ub+over; i++ {
+					items.Kids = append(items.Kids, refper.Int(1))
+				}
+				add(primCase{typ: "[]#int", tag: tag, val: items, neg: true, class: "SEQUENCE-OF/above-ub"})
 			}
-			add(primCase{typ: "[]#int", tag: tag, val: items, neg: true, class: "SEQUENCE-OF/above-ub"})
 			if z.lb > 0 {
 				add(primCase{typ: "[]#int", tag: tag, val: &refper.Node{Kind: "list"}, neg: true, class: "SEQUENCE-OF/below-lb"})
 			}
